@@ -364,6 +364,12 @@ def rpe_cli(run, case, rng, work):
             # with an empty value list (it fails in the statistics) is outside the statement
             run.hit("L3 all pairs skipped for zero reference distance (outcome not judged)")
             return None
+    if got is not None and o.get("plot") and not os.path.exists(os.path.join(work, "out.zip")) and \
+            ("minvalue must be less than or equal to maxvalue" in str(res.exc) or case.get("exe")):
+        # a colour-map limit on the wrong side of the value range makes the plot fail before
+        # anything is stored: no values, nothing to judge
+        run.hit("L3 plot refused inconsistent colour-map limits before storing (not judged)")
+        return None
     if not run.check(got is None, "evo_rpe succeeds on valid input", case,
                      "evo_rpe failed with %s: %s (argv %s)" % (got, res.exc, argv),
                      key="cli:unexpected-failure", argv=argv):
